@@ -57,7 +57,7 @@ def evaluate(h, scenarios, rng=None):
             rng.shuffle(dl)
         d = h.dir_for('x%d' % cid)
         gen.write_dir(d, [m for m, _ in dl])
-        cmds.append({'id': 'x%d' % cid, 'cmd': 'list', 'dir': d, 'exposure': True})
+        cmds.append({'id': 'x%d' % cid, 'cmd': 'list', 'dir': d, 'exposure': True, 'format': 'txt', 'want_out': True})
         cmds.append({'id': 'b%d' % cid, 'cmd': 'list', 'dir': d})
         meta[cid] = dl
     outs = h.run(cmds)
